@@ -171,6 +171,125 @@ class SliceLevels(Contract):
 CONTRACTS += [SliceLevels('int'), SliceLevels('slice')]
 
 
+class SliceTime(Contract):
+    """ioapi sliceDimensions(TSTEP=window) on a file with time flags of ARBITRARY length nt and any number of variable columns,
+    whenever it returns (getTimes raises ValueError on an invalid flag): the time flags of the result are exactly the selected rows of
+    the source (in the order selected, for an integer, a unit-stride slice or an index array of any length with repeats),
+    the data variable likewise, and the source is unchanged.  (SDATE/STIME = first flag is checked by the bounded harness
+    and, for regenerated flags, proved under C10 updatetflag; as one more clause here it made the solver time unstable.)"""
+    prop = 'C11'
+    target = IO + '::ioapi_base.sliceDimensions'
+    uses = [UpdateMetaAssumed()]
+    max_paths = 120
+    budget_s = 200
+    # getTimes raises ValueError on an invalid flag in any row; which flags are valid is C12's business
+    ignore = ('call:datetime/pre:valid-fields',)
+
+    def __init__(self, kind):
+        self.kind = kind
+        self.name = 'ioapi.sliceDimensions[TSTEP as %s]' % kind
+
+    def inputs(self, ctx, I):
+        from pyvc import frontend
+        nt, nv, ny = ctx.fresh('nsteps'), ctx.fresh('nvars'), ctx.fresh('nrows')
+        self.nt, self.nv, self.ny = nt, nv, ny
+        mod = frontend.load('core/_variables.py')
+        cls = I.classref(mod, mod.find('PseudoNetCDFVariable')[0])
+        tf = sym_array('TFLAG', (nt, nv, 2), 'i')
+        tf.cls = cls
+        tf.attrs.update(dimensions=('TSTEP', 'VAR', 'DATE-TIME'), _ncattrs=('units',), units='<YYYYDDD,HHMMSS>')
+        dv = sym_array('O3', (nt, ny), 'f')
+        dv.cls = cls
+        dv.attrs.update(dimensions=('TSTEP', 'ROW'), _ncattrs=('units',), units='ppm')
+        self.tf, self.dv = tf, dv
+        self.pre = (tf.buf.get, dv.buf.get)
+        dims = {'TSTEP': dim_obj(I, 'TSTEP', nt, unlimited=True), 'VAR': dim_obj(I, 'VAR', nv), 'DATE-TIME': dim_obj(I, 'DATE-TIME', 2), 'ROW': dim_obj(I, 'ROW', ny)}
+        f = pnc_file(I, dimensions=dims, variables=dict(TFLAG=tf, O3=dv), attrs=dict(SDATE=ctx.fresh('SDATE0'), STIME=ctx.fresh('STIME0'), TSTEP=ctx.fresh('TSTEP0'), NVARS=nv),
+                     relpath=IO, clsname='ioapi_base')
+        self.k, self.a, self.b, self.m = ctx.fresh('k'), ctx.fresh('a'), ctx.fresh('b'), ctx.fresh('m')
+        if self.kind == 'int':
+            sel = self.k
+        elif self.kind == 'slice':
+            sel = slice(self.a, self.b)
+        else:
+            self.ix = sym_array('index', (self.m,), 'i')
+            sel = self.ix
+        return dict(self=f, kwds=dict(TSTEP=sel))
+
+    def call_args(self, inp):
+        return [inp['self']], dict(inp['kwds'])
+
+    def row(self, i):
+        """source row selected as the i-th row of the result, and the number of rows"""
+        n = self.nt
+        if self.kind == 'int':
+            return ite(lt(self.k, 0), add(self.k, n), self.k), 1
+        if self.kind == 'slice':
+            na, nb = ite(lt(self.a, 0), add(self.a, n), self.a), ite(lt(self.b, 0), add(self.b, n), self.b)
+            return add(na, i), sub(nb, na)
+        e = self.ix.get(i)
+        return ite(lt(e, 0), add(e, n), e), self.m
+
+    def first_cells(self, I, res):
+        """the two cells of the first selected flag, as the terms the engine built (for syntactic generalisation)"""
+        T = res.attrs['variables']['TFLAG']
+        return T.get(0, 0, 0), T.get(0, 0, 1)
+
+    def requires(self, inp):
+        from pyvc.dt import days_in_year
+        n = self.nt
+        r = And(ge(n, 1), ge(self.nv, 1), ge(self.ny, 1), le(n, 100000))
+        if self.kind == 'int':
+            r = And(r, ge(self.k, sym.neg(n)), lt(self.k, n))
+        elif self.kind == 'slice':
+            first, cnt = self.row(0)
+            r = And(r, ge(self.a, sym.neg(n)), lt(self.a, n), ge(self.b, sym.neg(n)), le(self.b, n), ge(first, 0), ge(cnt, 1), le(add(first, cnt), n))
+        else:
+            p = z3.Int('rq_p')
+            r = And(r, ge(self.m, 1), z3.ForAll([p], Implies(And(ge(p, 0), lt(p, self.m)), And(ge(self.ix.get(p), sym.neg(n)), lt(self.ix.get(p), n)))))
+        return r
+
+    def small(self, inp):
+        # counter-model search: three hourly steps across a leap-year end, one variable; an uneven, repeating selection
+        pins = [eq(self.nt, 3), eq(self.nv, 1), eq(self.ny, 1)]
+        for t, (d, h) in enumerate(((2020366, 220000), (2020366, 230000), (2021001, 0))):
+            pins += [eq(self.tf.get(t, 0, 0), d), eq(self.tf.get(t, 0, 1), h)]
+        if self.kind == 'index-array':
+            pins += [eq(self.m, 3), eq(self.ix.get(0), 0), eq(self.ix.get(1), 2), eq(self.ix.get(2), 2)]
+        elif self.kind == 'slice':
+            pins += [eq(self.a, 1), eq(self.b, 3)]
+        else:
+            pins += [eq(self.k, -1)]
+        return And(*pins)
+
+    def ensures(self, inp, res, I):
+        from pyvc.dt import instant_yyyyjjj
+        if not isinstance(res, Obj) or 'variables' not in res.attrs:
+            return [('returns-file', False)]
+        vs = res.attrs['variables']
+        T, D = vs.get('TFLAG'), vs.get('O3')
+        if not isinstance(T, SArr) or not isinstance(D, SArr) or T.ndim != 3 or D.ndim != 2:
+            return [('TFLAG-and-data-variable-present', False)]
+        i, v, j = z3.Int('i'), z3.Int('v'), z3.Int('j')
+        src, cnt = self.row(i)
+        rng = And(ge(i, 0), lt(i, cnt))
+        return [
+                ('number-of-steps', And(eq(T.shape[0], cnt), eq(D.shape[0], cnt), eq(res.attrs['dimensions']['TSTEP'].attrs['_len'], cnt))),
+                ('time flags are the selected rows of the source', Implies(And(rng, ge(v, 0), lt(v, self.nv)),
+                                                                         And(eq(T.get(i, v, 0), self.pre[0]((src, v, 0))), eq(T.get(i, v, 1), self.pre[0]((src, v, 1)))))),
+                ('data rows are the selected rows of the source', Implies(And(rng, ge(j, 0), lt(j, self.ny)), eq(D.get(i, j), self.pre[1]((src, j))))),
+                ('source-unchanged', Implies(And(ge(i, 0), lt(i, self.nt), ge(v, 0), lt(v, self.nv)),
+                                             And(eq(self.tf.buf.get((i, v, 0)), self.pre[0]((i, v, 0))), eq(self.tf.buf.get((i, v, 1)), self.pre[0]((i, v, 1))))))]
+
+
+    def on_raise(self, inp, exc, I):
+        # an invalid time flag makes getTimes raise; nothing else may
+        return [('raises-only-ValueError-from-an-invalid-time-flag (raised %s)' % exc, exc == 'ValueError')]
+
+
+CONTRACTS += [SliceTime('int'), SliceTime('slice'), SliceTime('index-array')]
+
+
 def bounded(tier, seed):
     from rtc import harness as H, ioapi as IO
     import numpy as np
@@ -273,7 +392,8 @@ META = dict(
     level='other',
     technique='origin and level-edge arithmetic of ioapi sliceDimensions proved by pyvc with the base sliceDimensions executed in line (updatemeta as assumed summary, its count clauses are C10 obligations); time referencing by bounded run-time contract',
     text='Proved for grids of any size and windows given as integers (positive or negative) or unit-stride slices: XORIG/YORIG move by (first retained index) x cell size, cell sizes and the '
-         'source are unchanged, VGLVLS of the result is the matching sub-range with one more edge than layers. Bounded: decoded times / SDATE / STIME / TSTEP of time windows (strftime-based), '
+         'source are unchanged, VGLVLS of the result is the matching sub-range with one more edge than layers; for TSTEP windows (integer, unit-stride slice, index array of any length '
+         'with repeats and negative entries) on a file with time flags of any length: the time flags and the data rows of the result are exactly the selected rows of the source, in order. Bounded: decoded times / SDATE / STIME / TSTEP of time windows (strftime-based), '
          'retained data, metadata coherence, pairs of dimensions.',
     note='updatemeta is an ASSUMED summary in the proof (does not touch XORIG/YORIG/XCELL/YCELL/VGLVLS; its count clauses are proved under C10); the base sliceDimensions is no longer assumed: it is executed in line (and proved on its own under C02); floats are reals (A-REAL).',
     assumptions=[sym.A_REAL],
